@@ -35,6 +35,9 @@ CHECKS.update({
 CHECKS.update({
  "C11": ("exploration", "E3", "bounded-exhaustive enumeration of hostile input: every byte string up to length 5 (6 thorough) over 24 BER-relevant octets and envelope-shaped prefixes with every tail through the real frame decoder; every single-field mutation of every node of 19 valid responses through the decoder and through the real driver with a single operation and with a search pending on that message ID; nesting depths up to 250000 in a child process on a 2 MiB stack; oracle: no panic, no stack overflow, a frame whose announced bytes have all arrived is delivered or rejected, a driver error is observed by every pending operation", "6 C11", BE_NOTE + "; " + E1_NOTE),
 })
+CHECKS.update({
+ "C19": ("exploration", "E3", "bounded-exhaustive enumeration: every listed request control / extended request over its field alphabets (sizes, cookies incl. a length sweep across the BER length-form boundaries, optional fields, attribute lists, the C08 filter pool) compared with RFC-derived OID, criticality and DER value; every listed response value in every combination of length forms parsed and compared with what was encoded; control lists of 0-3 controls x criticality x value through the message envelope in both directions", "6 C19", BE_NOTE),
+})
 NA = {}
 import os
 props=[json.loads(l) for l in open('/verif/properties.jsonl')]
